@@ -15,7 +15,7 @@ use vrp_core::models::common::*;
 use vrp_core::models::problem::*;
 use vrp_core::models::solution::{Activity, Place as ActPlace};
 use vrp_core::models::{Feature, GoalContext, GoalContextBuilder, Problem, ViolationCode};
-use vrp_core::prelude::{Environment, ProblemBuilder};
+use vrp_core::prelude::{DefaultRandom, Environment, Float, ProblemBuilder, Random};
 
 pub fn i64s(v: &Value) -> Vec<i64> {
     v.as_array().map(|a| a.iter().map(|x| x.as_i64().unwrap()).collect()).unwrap_or_default()
@@ -187,6 +187,30 @@ pub fn build_case(case: &Value, env: Arc<Environment>) -> EvalCase {
     EvalCase { problem, ctx, job, tour_jobs, dims }
 }
 
+/// a random source that always selects the alternative goal in `GoalContext::maybe_new`
+pub struct AlwaysHit(pub DefaultRandom);
+
+impl Random for AlwaysHit {
+    fn uniform_int(&self, min: i32, max: i32) -> i32 {
+        self.0.uniform_int(min, max)
+    }
+    fn uniform_real(&self, min: Float, max: Float) -> Float {
+        self.0.uniform_real(min, max)
+    }
+    fn is_head_not_tails(&self) -> bool {
+        self.0.is_head_not_tails()
+    }
+    fn is_hit(&self, _: Float) -> bool {
+        true
+    }
+    fn weighted(&self, weights: &[usize]) -> usize {
+        self.0.weighted(weights)
+    }
+    fn get_rng(&self) -> vrp_core::rosomaxa::utils::RandomGen {
+        self.0.get_rng()
+    }
+}
+
 pub struct MultiCase {
     pub problem: Arc<Problem>,
     pub ctx: InsertionContext,
@@ -259,6 +283,14 @@ pub fn build_multi_case(case: &Value, env: Arc<Environment>) -> MultiCase {
         .map(|(ri, r)| vehicle_from(&format!("v{ri}"), &r["veh"], &i64s(&r["cap"]), &i64s(&r["costs"])))
         .collect();
     let goal = build_goal(transport.clone(), case["obj"].as_str().unwrap_or("distance"), dims, vec![]);
+    // `heuristic_goal`: the alternative goal every `GoalContextBuilder::with_features` goal carries (the `known_edge` objective
+    // ranked second), as `RecreateWithGoal` / `InfeasibleSearch` / `Elitism::maybe_new` select it
+    let goal = if case["heuristic_goal"].as_bool().unwrap_or(false) {
+        use vrp_core::rosomaxa::population::Alternative;
+        goal.maybe_new(&AlwaysHit(DefaultRandom::default()))
+    } else {
+        goal
+    };
     let problem = Arc::new(
         ProblemBuilder::default()
             .add_jobs(jobs.into_iter())
